@@ -201,6 +201,14 @@ structure Ang where
   gx : Chan2
   dbl : Bool
 
+/-- `a + 1j * b`: a complex array as the pair of its parts -/
+structure Cplx where
+  re : Px
+  im : Px
+
+/-- `pixels.shape` of a `(C, H, W)` array -/
+def shape3 (p : Px) : Nat × Nat × Nat := (p.length, nRows (p.headD []), nCols (p.headD []))
+
 /-- `np.angle(a + 1j * b)` channel by channel -/
 def angleOf (a b : Px) : List Ang := List.zipWith (fun y x => ⟨y, x, false⟩) a b
 /-- `2 * phi` -/
@@ -214,6 +222,11 @@ def cosA (mag : Rat → Rat → Rat) (l : List Ang) : Px :=
 
 /-- `np.abs(a + 1j * b)` -/
 def absOf (mag : Rat → Rat → Rat) (a b : Px) : Px := List.zipWith (map2 mag) a b
+/-- `np.angle(z)` -/
+def angleC (z : Cplx) : List Ang := angleOf z.re z.im
+/-- `np.abs(z)` -/
+def absC (mag : Rat → Rat → Rat) (z : Cplx) : Px := absOf mag z.re z.im
+
 /-- `np.median(x)` of a whole array -/
 def medianPx (x : Px) : Rat := median x.flatten.flatten
 /-- `x + s` for a scalar -/
